@@ -4,10 +4,14 @@
 (* default.                                                                *)
 (*                                                                         *)
 (* variant = [kind : "unit" | "t1" | "n1" | "t2",                          *)
-(*            own  : "none" | "general" | "bare" | "text"]                 *)
+(*            own  : "none" | "general" | "bare" | "text",                 *)
+(*            vr   : BOOLEAN]   variant-level rename_all = "UPPERCASE"     *)
+(* er      = enum-level rename_all: "none" | "lower"                       *)
 (* shared  = one of the literal/argument forms in SharedForms              *)
 (* Texts are token sequences: "T:<text>" literal text, "NAME" the variant  *)
-(* name, "F0"/"F1" a field shown under the derived trait.                  *)
+(* name ("NAME_L"/"NAME_U": converted to lowercase / UPPERCASE by the      *)
+(* rename_all in force - the variant's own, else the enum's), "F0"/"F1" a  *)
+(* field shown under the derived trait.                                    *)
 (* <<"REJECT">> = the derive must fail to compile.                         *)
 (*                                                                         *)
 (* Doc*: the property statement.  Impl*: display.rs `shared_attr_info`,    *)
@@ -36,12 +40,13 @@ REJECT == <<"REJECT">>
 (* Doc                                                                     *)
 (***************************************************************************)
 \* what the variant prints by itself
-Own(v) ==
+NameTok(v, er) == IF v.vr THEN <<"NAME_U">> ELSE IF er = "lower" THEN <<"NAME_L">> ELSE <<"NAME">>
+Own(v, er) ==
     CASE v.own = "general" -> (IF v.kind = "t2" THEN <<"T:V ", "F0", "T: ", "F1">>
                                ELSE IF v.kind = "unit" THEN <<"T:V ", "T:1">> ELSE <<"T:V ", "F0">>)
       [] v.own = "bare"    -> <<"F0">>
       [] v.own = "text"    -> <<"T:txt">>
-      [] v.own = "none"    -> (CASE v.kind = "unit" -> <<"NAME">>
+      [] v.own = "none"    -> (CASE v.kind = "unit" -> NameTok(v, er)
                                  [] v.kind \in {"t1", "n1"} -> <<"F0">>
                                  [] v.kind = "t2" -> REJECT)      \* several fields need an attribute
 
@@ -53,23 +58,23 @@ Subst(s, inner) ==
       [] s = "variant_field" -> inner \o <<"T:/">> \o <<"F0">>
 SharedDefault(s) == CASE s = "text" -> <<"T:shared">> [] s = "field" -> <<"T:f:", "F0">>
 
-DocText(v, s, D) ==
+DocText(v, s, D, er) ==
     IF D = "Debug" /\ s # "none" THEN REJECT                        \* no enum-level format on Debug
-    ELSE IF s = "none" THEN Own(v)
+    ELSE IF s = "none" THEN Own(v, er)
     ELSE IF Mentions(s)
          THEN IF BadVariantSpec(s) THEN REJECT
-              ELSE IF Own(v) = REJECT THEN REJECT
+              ELSE IF Own(v, er) = REJECT THEN REJECT
               ELSE IF SharedUsesField0(s) /\ ~HasField0(v) THEN REJECT     \* unknown name `_0`
-              ELSE Subst(s, Own(v))
-    ELSE IF v.own # "none" THEN Own(v)
+              ELSE Subst(s, Own(v, er))
+    ELSE IF v.own # "none" THEN Own(v, er)
     ELSE IF SharedUsesField0(s) /\ ~HasField0(v) THEN REJECT
     ELSE SharedDefault(s)
 
 (***************************************************************************)
 (* Impl                                                                    *)
 (***************************************************************************)
-ImplText(v, s, D) ==
-    IF D = "Debug" THEN (IF s # "none" THEN REJECT ELSE Own(v))
+ImplText(v, s, D, er) ==
+    IF D = "Debug" THEN (IF s # "none" THEN REJECT ELSE Own(v, er))
     ELSE IF s # "none" /\ BadVariantSpec(s) THEN REJECT              \* expand_enum's check
     ELSE
     LET containsVariant == IF s = "none" THEN TRUE ELSE Mentions(s)
@@ -78,9 +83,12 @@ ImplText(v, s, D) ==
         hasShared == s # "none" /\ (~sharedTransparent \/ D # "Display" \/ ~containsVariant)
         wrapping  == hasShared /\ containsVariant
         \* --- body
-        body == IF v.own # "none" THEN Own(v)                         \* format_args!(own) | delegate | write!(own)
+        body == IF v.own # "none" THEN Own(v, er)                         \* format_args!(own) | delegate | write!(own)
                 ELSE IF wrapping \/ ~hasShared
-                     THEN (CASE NFields(v) = 0 -> <<"NAME">> [] NFields(v) = 1 -> <<"F0">> [] OTHER -> REJECT)
+                     THEN (CASE NFields(v) = 0 -> (LET ra == IF v.vr THEN "upper" ELSE er       \* attrs.rename_all.get_or_insert(container's)
+                                                     IN  CASE ra = "upper" -> <<"NAME_U">> [] ra = "lower" -> <<"NAME_L">>
+                                                           [] OTHER -> <<"NAME">>)
+                             [] NFields(v) = 1 -> <<"F0">> [] OTHER -> REJECT)
                      ELSE <<>>                                        \* left empty: the shared default fills it
         wrapInto == IF v.own # "none" THEN wrapping ELSE hasShared
     IN  IF body = REJECT THEN REJECT
@@ -89,5 +97,5 @@ ImplText(v, s, D) ==
         ELSE IF body = <<>> THEN SharedDefault(s)
         ELSE Subst(s, body)                                          \* match body { _variant => shared }
 
-Agrees(v, s, D) == ImplText(v, s, D) = DocText(v, s, D)
+Agrees(v, s, D, er) == ImplText(v, s, D, er) = DocText(v, s, D, er)
 =============================================================================
